@@ -111,7 +111,9 @@ func main() {
 	// manifest is C19/C20's business and must not be blamed on a sequential property.
 	inProcess := map[string]bool{"C01": true, "C02": true, "C03": true, "C04": true, "C05": true, "C06": true, "C07": true, "C08": true,
 		"C11": true, "C12": true, "C13": true, "C14": true, "C15": true, "C16": true, "C18": true}
-	if inProcess[cmd] && len(rest) == 0 && os.Getenv("VERIF_CHILD") == "" {
+	if inProcess[cmd] && len(rest) == 1 && rest[0] == "sharded-pass" {
+		// the sharded pass, in a process of its own (see below): exit 0 = held (evidence written), 3 = refuting
+		// observations were made and have to be re-established with one worker, 2 = inconclusive
 		e := checks.NewEnv(cmd, tier, seed, only)
 		e.R.Quiet = true
 		f(e)
@@ -119,10 +121,38 @@ func main() {
 			e.R.Quiet = false
 			os.Exit(e.R.Finish())
 		}
-		fmt.Printf("%s: %d refuting observations in the sharded pass; re-establishing them with a single worker\n", cmd, e.R.Violations())
+		fmt.Printf("%s: %d refuting observations in the sharded pass\n", cmd, e.R.Violations())
+		os.Exit(3)
+	}
+	if inProcess[cmd] && len(rest) == 0 && os.Getenv("VERIF_CHILD") == "" {
+		// The sharded pass runs in a child process: a library change that makes concurrent calls abort the runtime
+		// ("fatal error: concurrent map writes" cannot be recovered) must not take the verdict with it - the
+		// single-worker run below still decides the sequential property.
+		args := []string{cmd, "--tier", tier, "--seed", fmt.Sprint(seed)}
+		if only != "" {
+			args = append(args, "--only", only)
+		}
+		c := exec.Command(os.Args[0], append(args, "sharded-pass")...)
+		c.Stdout, c.Stderr = os.Stdout, os.Stderr
+		err := c.Run()
+		code := 0
+		if err != nil {
+			code = -1
+			if ee, ok := err.(*exec.ExitError); ok {
+				code = ee.ExitCode()
+			}
+		}
+		if code == 0 {
+			os.Exit(0)
+		}
+		why := "the sharded (16-worker) pass made refuting observations"
+		if code != 3 {
+			why = fmt.Sprintf("the sharded (16-worker) pass did not complete (exit %d)", code)
+		}
+		fmt.Printf("%s: %s; deciding with a single worker\n", cmd, why)
 		e2 := checks.NewEnv(cmd, tier, seed, only)
 		e2.Workers = 1
-		e2.R.Set("note", fmt.Sprintf("the sharded (16-worker) pass made %d refuting observations; this evidence is from the single-worker re-run that decides", e.R.Violations()))
+		e2.R.Set("note", why+"; this evidence is from the single-worker run that decides")
 		f(e2)
 		os.Exit(e2.R.Finish())
 	}
